@@ -2,13 +2,17 @@ module verif/harness
 
 go 1.24.0
 
-require github.com/TheManticoreProject/Manticore v0.0.0
+require (
+	github.com/Azure/go-ntlmssp v0.0.0-20221128193559-754e69321358
+	github.com/TheManticoreProject/Manticore v0.0.0
+	github.com/google/uuid v1.6.0
+	golang.org/x/crypto v0.37.0
+	golang.org/x/net v0.39.0
+)
 
 require (
-	github.com/Azure/go-ntlmssp v0.0.0-20221128193559-754e69321358 // indirect
 	github.com/go-asn1-ber/asn1-ber v1.5.8-0.20250403174932-29230038a667 // indirect
 	github.com/go-ldap/ldap/v3 v3.4.11 // indirect
-	github.com/google/uuid v1.6.0 // indirect
 	github.com/hashicorp/go-uuid v1.0.3 // indirect
 	github.com/jcmturner/aescts/v2 v2.0.0 // indirect
 	github.com/jcmturner/dnsutils/v2 v2.0.0 // indirect
@@ -16,8 +20,6 @@ require (
 	github.com/jcmturner/goidentity/v6 v6.0.1 // indirect
 	github.com/jcmturner/gokrb5/v8 v8.4.4 // indirect
 	github.com/jcmturner/rpc/v2 v2.0.3 // indirect
-	golang.org/x/crypto v0.37.0 // indirect
-	golang.org/x/net v0.39.0 // indirect
 )
 
 replace github.com/TheManticoreProject/Manticore => /repo
